@@ -38,6 +38,21 @@ def classify(pid, d):
 
 CLASSIFIERS = {}
 
+
+def lean_string_list(path, name):
+    """parse `def name : List String := [ ... ]` from a generated Lean file"""
+    txt = open(path).read()
+    m = re.search(r"def " + re.escape(name) + r" : List String :=\s*\[(.*?)\]\n", txt, flags=re.S)
+    if not m:
+        raise RuntimeError(f"{name} not found in {path}")
+    return [bytes(x, "utf-8").decode("unicode_escape") for x in re.findall(r'"((?:[^"\\]|\\.)*)"', m.group(1))]
+
+
+def c19_model_ops(lean_dir):
+    toks = lean_string_list(os.path.join(lean_dir, "QiVerif", "Generated", "Session.lean"), "clientTokens")
+    enc = "|".join(t.replace(" ", "_") for t in toks)
+    return [(f"session.search 2 {enc}", "safe"), (f"session.search 3 {enc}", "safe")]
+
 PROPS = {
     "C01": {
         "level": "proof",
@@ -64,5 +79,21 @@ PROPS = {
             "pointer-typed elements and unexported fields are outside the property's domain and not generated",
             "Go's int is 64 bits on this platform",
         ],
+    },
+    "C19": {
+        "level": "proof",
+        "extract": ["Session"],
+        "model_ops": c19_model_ops,
+        "rule": "stress: N in {2,8,32} (thorough: up to 64) goroutines request proxies for 5 services behind 3 endpoints "
+                "(accept delayed 1-4 ms so that dial windows overlap) from one fresh session per round, call through each "
+                "proxy, then count live connections per endpoint; run in a child process (a fatal runtime error cannot be "
+                "recovered); every round is non-trivial; plus exhaustive exploration of all schedules of 2 and 3 goroutines "
+                "of the program compiled from the regenerated token list",
+        "assumptions": [
+            "RWMutex without writer preference (superset of Go's interleavings for safety; no recursive read-locking in this code)",
+            "a working proxy over a real network and wall-clock bounds are observed in the stress run, not proved",
+            "closers (entry deletion on disconnect) do not fire during the requests",
+        ],
+        "timeout": {"quick": 600, "thorough": 3000},
     },
 }
